@@ -14,9 +14,11 @@ FAllLinks == {{a, b} : a, b \in FNode} \ {{a} : a \in FNode}
 AllOverlays == SUBSET FAllLinks
 Iso4 == { {{1,2},{2,3},{3,4}}, {{1,2},{1,3},{1,4}}, {{1,2},{2,3},{3,4},{4,1}}, {{1,2},{2,3},{3,1},{3,4}},
           {{1,2},{2,3},{3,4},{4,1},{1,3}}, {{1,2},{1,3},{1,4},{2,3},{2,4},{3,4}} }
+\* overlays with a cycle: a node gets the same message from two peers
+Cyclic4 == { {{1,2},{2,3},{3,1},{3,4}}, {{1,2},{2,3},{3,4},{4,1}}, {{1,2},{2,3},{3,4},{4,1},{1,3}} }
 AllJoined == {FNode}
 AnyJoined == SUBSET FNode
 
 MView == <<nbr, pend, grp, ann>>
-FView == <<olinks, members, win, fnet, dcount, fcount, norig, nwin, nfloss, fsent>>
+FView == <<olinks, members, win, fnet, act, dcount, fcount, norig, nwin, nfloss, fsent>>
 =============================================================================
